@@ -394,9 +394,18 @@ class BVReduceBW:
     def global_mutations(self, node, input_):
         bw = get_bv_width(node[1])
         bws = sorted(set([bw - 1, bw // 2, 2, 1]))
+        # find a name that is a single symbol and not in use yet
+        prefix = '_'
+        while True:
+            if is_piped_symbol(node[1]):
+                varname = '|{}{}|'.format(prefix, node[1][1:-1])
+            else:
+                varname = '{}{}'.format(prefix, node[1])
+            if get_sort(Node(varname)) is None:
+                break
+            prefix += '_'
         for b in bws:
             if 0 < b < bw:
-                varname = '_{}'.format(node[1])
                 var = Node('declare-const', varname, Node('_', 'BitVec', b))
                 zext = Node('define-fun', node[1], (), get_sort(node[1]),
                             Node(Node('_', 'zero_extend', bw - b), varname))
